@@ -93,3 +93,13 @@ pub(super) fn write_ht(
 
     Ok(())
 }
+
+/// Verification hook (compiled only with `--cfg nomt_verif`): the real [`write_ht`].
+#[cfg(nomt_verif)]
+pub(crate) fn verif_write_ht(
+    io_handle: IoHandle,
+    ht_fd: &File,
+    ht: Vec<(u64, Arc<FatPage>)>,
+) -> std::io::Result<()> {
+    write_ht(io_handle, ht_fd, ht)
+}
